@@ -124,17 +124,18 @@ type Sched struct {
 	changeAt map[int]int
 	weight   map[string]int
 
-	Steps     int
-	MaxSteps  int
-	Ticks     int
-	Stalls    int
-	StallTime time.Duration
-	LogHash   uint64
-	Log       []string
-	KeepLog   int
-	Decisions []int32 // chosen index per step (-1 = tick)
-	Replay    []int32
-	Record    bool
+	Steps      int
+	MaxSteps   int
+	Ticks      int
+	idleStreak int
+	Stalls     int
+	StallTime  time.Duration
+	LogHash    uint64
+	Log        []string
+	KeepLog    int
+	Decisions  []int32 // chosen index per step (-1 = tick)
+	Replay     []int32
+	Record     bool
 
 	Events    func() []Event
 	OnQuiesce func() error
@@ -521,7 +522,7 @@ var stallQuanta = []time.Duration{time.Millisecond, 30 * time.Millisecond, 250 *
 // Run drives the bubble until stop() holds at quiescence.
 func (s *Sched) Run(stop func() bool, deadline time.Time, idleCut time.Duration) (out Outcome) {
 	s.t0 = time.Now()
-	defer func() { s.Elapsed = time.Since(s.t0) }()
+	defer func() { s.Elapsed += time.Since(s.t0) }()
 	s.lastProgress = s.t0
 	replayPos := 0
 	for {
@@ -659,6 +660,17 @@ func (s *Sched) Run(stop func() bool, deadline time.Time, idleCut time.Duration)
 				s.Stalls++
 				s.StallTime += q
 			}
+			if kind == "T" {
+				// nothing is runnable: lengthen the idle quantum while nothing happens, so
+				// that hour-long waits cost a few steps (any other timer still fires first)
+				if s.idleStreak < 20 {
+					s.idleStreak++
+				}
+				q = s.IdleQuantum << uint(s.idleStreak-1)
+				if q > time.Hour || q <= 0 {
+					q = time.Hour
+				}
+			}
 			s.Ticks++
 			s.record(kind, "", "", n)
 			s.mu.Unlock()
@@ -674,6 +686,7 @@ func (s *Sched) Run(stop func() bool, deadline time.Time, idleCut time.Duration)
 			t.Stop()
 			continue
 		}
+		s.idleStreak = 0
 		setSelectSeed(Mix(s.seed, "sel") + uint64(s.Steps)*0x9E3779B97F4A7C15 | 1)
 		if chosen.g != nil {
 			p := chosen.g
